@@ -1237,6 +1237,30 @@ def items_names(tier):
                        'tags': tags + shape_tags(shape) + (['matrix-array-entry'] if arrays else []),
                        'g': {'$grader': cls, 'kw': kw}, 'gt': None, 'honest': honest, 'cheat': cheat, 'slot': None,
                        'hgrade': 1, 'collide': collide, 'notes': ['grid/names']}
+    # graders in which NOTHING is visible to the student: no variables, every default constant hidden (instructor_vars, or
+    # deleted through user_constants) - the student's scope is empty, and a hidden name is still undefined (a seeded change
+    # fell back to the full scope when the filtered scope was empty)
+    for cls in ('FormulaGrader', 'NumericalGrader', 'MatrixGrader'):
+        for hide in ('instructor', 'deleted'):
+            for name in ('pi', 'e', 'i', 'j'):
+                if hide == 'deleted' and name != 'pi':
+                    continue
+                for shape in ALL_SHAPES:
+                    if shape in ARRAY_SHAPES:
+                        continue
+                    if hide == 'instructor':
+                        kw = {'answers': '2*pi', 'instructor_vars': ['pi', 'e', 'i', 'j']}
+                    else:
+                        kw = {'answers': '2*pi', 'user_constants': {'e': None, 'i': None, 'j': None},
+                              'instructor_vars': ['pi']}
+                    if cls == 'MatrixGrader':
+                        kw['max_array_dim'] = 1
+                    H = '6.283185307179586'
+                    yield {'clause': 'instructor', 'seed': 5, 'offender': name, 'shape': shape,
+                           'tags': shape_tags(shape) + ['student-scope-empty'],
+                           'g': {'$grader': cls, 'kw': kw}, 'gt': None, 'honest': H,
+                           'cheat': apply_shape(shape, H, name, helper_pool(shape, None)[0]), 'slot': None, 'hgrade': 1,
+                           'collide': name, 'notes': ['grid/names', 'grid/empty-student-scope']}
     # words that are number literals to Python's float() but NAMES to the formula grammar: the only defined spelling of
     # infinity is the constant 'infty' (added after a seeded change gave plain numbers a float() fast path)
     for sign in ('', '-'):
